@@ -260,11 +260,28 @@ enum Run {
 }
 
 /// an accepted loopback pair whose server end is served by `handle_connection`
+/// ONE listening socket per process (a listener per connection would leave its port in TIME_WAIT and drain the
+/// ephemeral ports of the machine in a long run); the harness makes one connection at a time, so the next accepted
+/// socket is the one just connected.
+async fn listener() -> Result<&'static tokio::net::TcpListener, String> {
+    static L: tokio::sync::OnceCell<tokio::net::TcpListener> = tokio::sync::OnceCell::const_new();
+    L.get_or_try_init(|| async { tokio::net::TcpListener::bind("127.0.0.1:0").await.map_err(|e| format!("bind {e}")) }).await
+}
+
 async fn connect(desc: Arc<PortDescriptor>) -> Result<(tokio::net::TcpStream, tokio::task::JoinHandle<()>), String> {
-    let listener = tokio::net::TcpListener::bind("127.0.0.1:0").await.map_err(|e| format!("bind {e}"))?;
+    let listener = listener().await?;
     let addr = listener.local_addr().map_err(|e| format!("addr {e}"))?;
     let client = tokio::net::TcpStream::connect(addr).await.map_err(|e| format!("connect {e}"))?;
-    let (server_end, peer) = listener.accept().await.map_err(|e| format!("accept {e}"))?;
+    let (server_end, peer) = loop {
+        let (s, peer) = tokio::time::timeout(Duration::from_secs(30), listener.accept())
+            .await
+            .map_err(|_| "accept timed out".to_string())?
+            .map_err(|e| format!("accept {e}"))?;
+        // a connection left over from an attempt that failed half-way is not ours
+        if client.local_addr().map_or(false, |a| a == peer) {
+            break (s, peer);
+        }
+    };
     let task = tokio::spawn(async move {
         let _ = kvarn::handle_connection(kvarn::Incoming::Tcp(server_end), peer, desc, || true).await;
     });
